@@ -366,7 +366,7 @@ func r22RejectionIsFinal(c *core.Ctx) {
 	if asTarget != nil {
 		n := 0
 		for _, name := range []string{"pointindex.PointIndex.InsertCoord", "pointindex.PointIndex.InsertPoint", "pointindex.PointIndex.InsertPolygon"} {
-			f := c.P.Funcs[name]
+			f := c.P.Lookup(name)
 			if f == nil || f.SSA == nil {
 				continue
 			}
